@@ -6,6 +6,7 @@ package sctp
 import (
 	"bytes"
 	"container/heap"
+	"context"
 	"crypto/sha256"
 	"encoding/hex"
 	"encoding/json"
@@ -1098,3 +1099,5 @@ func vfBulk(t *testing.T, prop, sub string, fn func(sr *vfSubReport) *vfCase) {
 		sr.Violations = append(sr.Violations, vfViolation{Sub: sub, Sig: c.Sig, Msg: c.Verdict, Replay: p})
 	}
 }
+
+func contextBackground() context.Context { return context.Background() }
